@@ -103,7 +103,8 @@ Definition get_current_master (cs : list (host * node_state)) : prog master_res 
   Do 1534 (DcsGet PMaster) (fun r =>
     match r with
     | RVal (VHost m) => Ret (MrOk m)
-    | _ => ensure_current_master cs      (* missing, unreadable or read error: re-learn from the servers *)
+    | RErr ENotFound | RErr EMalformed | RVal _ => ensure_current_master cs   (* missing or unparsable: re-learn from the servers *)
+    | _ => Ret MrErr                     (* the read failed: the record may well be there - do nothing *)
     end).
 
 (* ---- approvals ---------------------------------------------------------------------- *)
